@@ -238,6 +238,11 @@ def run(prop, tier):
         return code
     finally:
         shutil.rmtree(wd, ignore_errors=True)
+        try:
+            from . import native as _n
+            _n.cleanup()
+        except Exception:
+            pass
 
 
 def report(prop, tier, seed, results, wall, pm):
